@@ -210,12 +210,15 @@ theorem client_explicit_required_auth (c : Cache) (now : Nat) (sid : Str) (ans :
     by_cases hx : e.expired now = true
     · simp [hx] at h
     · simp only [hx, Bool.false_eq_true, if_false] at h
-      cases hae : e.authenticated with
-      | false => simp [hae] at h
-      | true =>
-        simp only [hae, Bool.not_true, Bool.and_false, Bool.false_eq_true, if_false] at h
+      by_cases hg2 : (!(e.key.isSome && (e.crypto == "AES" || e.crypto == "AESGCM")) || (true && !e.authenticated)) = true
+      · rw [if_pos hg2] at h; simp at h
+      · rw [if_neg hg2] at h
+        have hae : e.authenticated = true := by
+          cases ha : e.authenticated with
+          | true => rfl
+          | false => exfalso; apply hg2; simp [ha]
         cases ans <;> simp at h
-        exact h.2.2.2.2
+        rw [← h.2.2.2.2]; exact hae
 
 open Cedar.SC in
 /-- a server whose policy for the named command marks authentication REQUIRED and that resumes a
